@@ -35,3 +35,10 @@ Definition SlicePrevOne (words : list Z) (a b j : Z) : option Z :=
   | None => None
   | Some r => PrevOne r j (b - a)
   end.
+
+(** [bitmap.Slice(bitmap.Join(vs, w), k*w, m*w)] *)
+Definition JoinSlice (vs : list Z) (w k m : Z) : option (list Z) :=
+  match Join vs w with
+  | None => None
+  | Some r => Slice r (k * w) (m * w)
+  end.
